@@ -50,6 +50,9 @@ OBJ_MIXED = OBJ("mixed", 10000, 500000)
 
 ALL_JOBS = [ARC, VEC, CSTR, WAKER, FEED, CBOX, INTRES] + C16_JOBS + [OBJ_CALLS, OBJ_LIFE, OBJ_CTX, OBJ_CASTS, OBJ_INTRES, OBJ_MIXED]
 
+# a run that crashed, hung or panicked decided nothing: whichever property was running it reports it
+DIED = lambda cls: cls.startswith("crash.") or cls.endswith(".panic")
+
 PROPS = {
     "C10": {
         "jobs": [ARC],
@@ -89,35 +92,35 @@ PROPS = {
     },
     "C01": {
         "jobs": [OBJ_CALLS, OBJ_MIXED],
-        "accept": lambda job, cls, site, msg: cls in ("obj.wrong_method", "obj.wrong_instance", "obj.call_count", "obj.result_mismatch", "obj.state_mismatch", "obj.args_altered")
+        "accept": lambda job, cls, site, msg: cls in ("obj.wrong_method", "obj.wrong_instance", "obj.call_count", "obj.result_mismatch", "obj.state_mismatch", "obj.args_altered") or DIED(cls)
         or (job == "obj-calls" and (cls.startswith("crash.") or cls == "obj.panic")),
         "real": OBJ_REAL, "stub": OBJ_STUB, "assumptions": OBJ_ASSUME,
     },
     "C02": {
         "jobs": [OBJ_CALLS, OBJ_MIXED],
-        "accept": lambda job, cls, site, msg: cls in ("obj.args_altered", "obj.address_mismatch")
+        "accept": lambda job, cls, site, msg: cls in ("obj.args_altered", "obj.address_mismatch") or DIED(cls)
         or (cls == "obj.result_mismatch" and (site.startswith(("s_", "r_", "ir_", "ira_", "irm_", "m_res", "m_try")) or "::s_" in site or "::r_" in site or "::ir" in site or "::m_res" in site or "::m_try" in site)),
         "real": OBJ_REAL, "stub": OBJ_STUB, "assumptions": OBJ_ASSUME + ["honest caveat (DESIGN.md section 3/C02): this property is about values; it is claimed because the call histories carry every auto-wrapped shape across the boundary with stateful callee-side digests and address logs"],
     },
     "C06": {
         "jobs": [OBJ_LIFE, OBJ_MIXED, CBOX],
-        "accept": lambda job, cls, site, msg: cls.startswith(("life.", "box.", "layout.box")) or (job in ("obj-life", "cbox") and (cls.startswith("crash.") or cls.endswith(".panic"))),
+        "accept": lambda job, cls, site, msg: cls.startswith(("life.", "box.", "layout.box")) or DIED(cls),
         "real": OBJ_REAL + ["cglue::boxed (CBox, CSliceBox)"], "stub": OBJ_STUB, "assumptions": OBJ_ASSUME,
     },
     "C07": {
         "jobs": [OBJ_CTX],
-        "accept": lambda job, cls, site, msg: cls.startswith("ctx.") or cls.startswith("crash."),
+        "accept": lambda job, cls, site, msg: cls.startswith("ctx.") or DIED(cls),
         "real": OBJ_REAL, "stub": OBJ_STUB + ["context payload standing for libloading::Library: its destructor is the unload"],
         "assumptions": OBJ_ASSUME + ["the 'released inside the call' clause is decided by a backtrace captured in the context payload's destructor (searching for a cglue_wrapped_ frame), only when the consumed object is the last holder"],
     },
     "C08": {
         "jobs": [OBJ_CASTS],
-        "accept": lambda job, cls, site, msg: cls.startswith("cast.") or ("!(" in site and cls.startswith("obj.")) or cls.startswith("crash.") or cls == "layout.optional_words",
+        "accept": lambda job, cls, site, msg: cls.startswith("cast.") or ("!(" in site and cls.startswith("obj.")) or DIED(cls) or cls == "layout.optional_words",
         "real": OBJ_REAL, "stub": OBJ_STUB, "assumptions": OBJ_ASSUME + ["the property asks for exhaustive enumeration of a finite matrix; this family samples, and reports the matrix cells (group x enabled set x requested set x operation x container) actually hit: 3120 exist for the corpus groups"],
     },
     "C13": {
         "jobs": [OBJ_INTRES, INTRES],
-        "accept": lambda job, cls, site, msg: (cls in ("obj.result_mismatch", "obj.args_altered", "obj.call_count") and ("ir_" in site or "ira_" in site or "m_res" in site)) or cls.startswith("intres.") or job == "intres" or (job == "obj-intres" and (cls.startswith("crash.") or cls == "obj.panic"))
+        "accept": lambda job, cls, site, msg: (cls in ("obj.result_mismatch", "obj.args_altered", "obj.call_count") and ("ir_" in site or "ira_" in site or "m_res" in site)) or cls.startswith("intres.") or job == "intres" or DIED(cls)
         or (cls in ("obj.result_mismatch", "obj.args_altered", "obj.call_count") and ("irm_" in site or "fmt" in site)),
         "real": OBJ_REAL + ["cglue::result (IntError impls, into_int_out_result, from_int_result)"], "stub": OBJ_STUB, "assumptions": OBJ_ASSUME,
     },
@@ -225,7 +228,7 @@ ALL_JOBS.append(OBJ_LAYOUT)
 PROPS["C04"] = {
     "jobs": [OBJ_LAYOUT],
     "extra_phases": [_phase_expander],
-    "accept": lambda job, cls, site, msg: cls.startswith("layout."),
+    "accept": lambda job, cls, site, msg: cls.startswith("layout.") or DIED(cls),
     "rule": "expander part: one evaluation = one run of the real expander (cglue-gen as a library) over the corpus definitions under one process hash seed or one permutation of the trait listing order, its layout projection (repr(C) structs with field names and types in order, vtable default initialisers) compared with the reference; object part: one evaluation = one generated plan whose created group objects are read as raw words, preceded by the concrete-versus-opaque comparison of eight freshly built objects",
     "real": ["cglue-gen (gen_trait, TraitGroup::create_group, TraitGroupImpl::implement_group) linked from /repo and run as a process", "generated group objects read as raw words (objsim)"],
     "stub": ["getrandom (shim: hash seed = f(SIMRAND_SEED))"],
